@@ -90,6 +90,9 @@ impl TimeLimitedEvaluator {
         if args.list_json { print!("{}", output); }''', what='JSON list echoed to stdout although --output is given'),
 ]
 
+sys.path.insert(0, verif)
+from selftest_benign import BENIGN
+
 def sh(cmd, **kw):
     return subprocess.run(cmd, shell=True, capture_output=True, text=True, **kw)
 
@@ -134,6 +137,38 @@ for m in MUTANTS:
     if status != 'caught':
         print('    ' + '\n    '.join(out.splitlines()[-8:]))
     results.append(dict(id=m['id'], prop=m['prop'], what=m['what'], status=status, suite=suite, invariant=inv[0] if inv else None))
+    open(path, 'w').write(orig)
+
+for m in BENIGN:
+    if only and m['id'] not in only:
+        continue
+    path = os.path.join(repo, m['file'])
+    orig = open(path).read()
+    src = orig
+    bad = False
+    for old, new in m['edits']:
+        if src.count(old) != 1:
+            print(f"{m['id']}: anchor occurs {src.count(old)} times: {old[:60]!r}")
+            bad = True
+            break
+        src = src.replace(old, new)
+    if bad:
+        failed += 1
+        results.append(dict(id=m['id'], status='anchor-missing'))
+        continue
+    open(path, 'w').write(src)
+    suite = None
+    if with_suite:
+        r = sh(f"cd {repo} && cargo test --workspace --no-fail-fast --offline --target-dir {scratch}/suite-target 2>&1 | grep -E '^test result' ")
+        suite = 'pass' if r.stdout and all(' 0 failed' in l for l in r.stdout.strip().splitlines()) else 'FAIL'
+    for prop in ('C05', 'C19', 'C20'):
+        r = sh(f"VERIF_REPO={repo} {verif}/check {prop} quick")
+        ok = r.returncode == 0 and 'VIOLATION' not in r.stdout
+        print(f"{m['id']:34s} {prop} {'silent' if ok else 'ALARM/ERROR'} exit={r.returncode} suite={suite}")
+        if not ok:
+            failed += 1
+            print('    ' + '\n    '.join((r.stdout + r.stderr).splitlines()[-10:]))
+        results.append(dict(id=m['id'], prop=prop, what=m['what'], status='silent' if ok else 'ALARM', suite=suite))
     open(path, 'w').write(orig)
 
 # the unbroken scratch copy must be silent
